@@ -53,8 +53,9 @@ Proof.
   assert (W : wiring_ok G = true) by (vm_compute; reflexivity).
   assert (E : exec_ok G = true) by (vm_compute; reflexivity).
   assert (X : exit_ok G = true) by (vm_compute; reflexivity).
+  assert (I : io_ok G = true) by (vm_compute; reflexivity).
   intros ctx pctx o evs. exists (child_log G (if ran o then evs else [])).
-  rewrite (execute_error_eq G E). split; [now rewrite (execute_shape G E)|].
+  rewrite (execute_error_eq G I E). split; [now rewrite (execute_shape G I E)|].
   split; [apply child_log_lines|]. split.
   - intros ->. split; [now apply child_log_out | now apply child_log_err].
   - rewrite (end_entry_ok_iff G E). now apply exec_err_nil_iff.
@@ -71,7 +72,8 @@ Theorem exit_status_mapping : forall ctx pctx o,
 Proof.
   assert (E : exec_ok G = true) by (vm_compute; reflexivity).
   assert (X : exit_ok G = true) by (vm_compute; reflexivity).
-  intros ctx pctx o. rewrite (execute_error_eq G E). split; [now apply exec_err_nil_iff|]. split.
+  assert (I : io_ok G = true) by (vm_compute; reflexivity).
+  intros ctx pctx o. rewrite (execute_error_eq G I E). split; [now apply exec_err_nil_iff|]. split.
   - intros k -> H. now apply exec_err_ctx.
   - intros ->. apply exec_err_noctx.
 Qed.
@@ -93,7 +95,8 @@ Proof.
   assert (E : exec_ok G = true) by (vm_compute; reflexivity).
   assert (O : output_ok G = true) by (vm_compute; reflexivity).
   assert (S : sep G = 10) by (vm_compute; reflexivity).
-  intros ctx pctx o evs. rewrite (output_shape G E O), (execute_error_eq G E).
+  assert (I : io_ok G = true) by (vm_compute; reflexivity).
+  intros ctx pctx o evs. rewrite (output_shape G I E O), (execute_error_eq G I E).
   split; [apply child_log_lines|]. split.
   - intros ->. split; [now apply child_log_out | now apply child_log_err].
   - split; [|reflexivity]. apply linesof_output_text. rewrite <- S. now apply child_log_texts_ok.
@@ -105,6 +108,10 @@ Print Assumptions output_returns_all.
 (* Stop flushes the adapters after Wait as well (Start / Stop are outside the property) *)
 Example gen_stop_flushes : stop_flush G = true.
 Proof. vm_compute. reflexivity. Qed.
+
+(* on linux the command leads its own process group and its Cancel hook kills that group (C05's concern; recorded) *)
+Example gen_group_facts : own_group G = true /\ cancel_hook G = true.
+Proof. split; vm_compute; reflexivity. Qed.
 
 (* ConvertProcessError, as generated, on the outcomes the harness produces *)
 Example gen_convert_table :
@@ -131,7 +138,8 @@ Definition with_tail (F : facts) (t : list wop) : facts :=
   {| sep := sep F; loop_ops := loop_ops F; tail_ops := t; flush_ops := flush_ops F; lp_resets := lp_resets F;
      lp_drops_empty := lp_drops_empty F; lp_by_stream := lp_by_stream F; stdout_flag := stdout_flag F;
      stderr_flag := stderr_flag F; run_flush := run_flush F; stop_flush := stop_flush F; flush_streams := flush_streams F;
-     run_converts := run_converts F; exec_seq := exec_seq F; end_ok_iff_nil := end_ok_iff_nil F;
+     run_converts := run_converts F; wait_delay_set := wait_delay_set F; cancel_hook := cancel_hook F;
+     own_group := own_group F; exec_seq := exec_seq F; end_ok_iff_nil := end_ok_iff_nil F;
      output_plain := output_plain F; output_reads_always := output_reads_always F; conv_ctx_first := conv_ctx_first F;
      rules := rules F |}.
 
